@@ -107,7 +107,9 @@ func canon(x Inst) string {
 	return deepString(x.Target(), x.Mask(), false, x.Fam() == "map" || x.Fam() == "set")
 }
 
-func fullFP(x Inst) string { return fpOf(deepString(x.Target(), nil, true, false)) }
+// fullFP: fingerprint for before / after comparisons of one object in this process (purity); contentFP: address-free
+func fullFP(x Inst) string    { return fpOf(purityString(x.Target())) }
+func contentFP(x Inst) string { return fpOf(deepString(x.Target(), nil, true, false)) }
 
 // fpSkip: the call in progress belongs to a long script and its deep fingerprints are not taken
 var fpSkip bool
@@ -141,7 +143,7 @@ func step(x Inst, c Call, rs int, pre Ev, extra Ev) (post Ev) {
 	if fpSkip {
 		noteCase(x.Kind(), fmt.Sprint(x.Cfg()), "script", c.key())
 	} else {
-		noteCase(x.Kind(), fmt.Sprint(x.Cfg()), fp0, c.key())
+		noteCase(x.Kind(), fmt.Sprint(x.Cfg()), contentFP(x), c.key())
 	}
 	var r []any
 	ci := invoke(e, func() { r = x.Do(c) })
